@@ -1252,6 +1252,8 @@ class MindsDBParser(Parser):
         if hasattr(p, 'id'):
             query.alias = Identifier(parts=[p.id])
         if hasattr(p, 'column_list'):
+            if not isinstance(query, Select):
+                raise ParsingException(f'Column aliases are supported only for select subquery, got: {query.__class__.__name__}')
             for i, col in enumerate(p.column_list):
                 if i >= len(query.targets):
                     break
